@@ -13,7 +13,7 @@ import (
 
 func init() {
 	register(&core.Rule{ID: "body-read-failure-classified", Run: bodyReadFailureClassified,
-		Doc: "Where a function that is handed the *http.Response decodes the response body itself (a call on an unmarshaler built over response.Body, or with response.Body as an argument) and, when that fails, answers with an error of its own making (one that does not carry the failure), the path has first asked whether the failure is the call's context ending (wrapIfContextError on it, errors.Is with context.Canceled / context.DeadlineExceeded, or its Code compared with CodeCanceled / CodeDeadlineExceeded): the body of a non-200 response is read straight from net/http, whose error for a cancelled or expired call is the raw context error."})
+		Doc: "Where a function that is handed the *http.Response decodes the response body itself (a call on an unmarshaler built over response.Body, or with response.Body as an argument) and, when that fails, answers with an error of its own making (one that does not carry the failure), the path has first asked whether the failure is the call's context ending (wrapIfContextError on it or on its cause, or errors.Is with context.Canceled / context.DeadlineExceeded; a comparison of its Code alone does not count, because the decoder passes a raw context error on as the cause of an error coded unknown): the body of a non-200 response is read straight from net/http, whose error for a cancelled or expired call is the raw context error."})
 }
 
 func bodyReadFailureClassified(c *core.Ctx) {
@@ -159,11 +159,9 @@ func bodyReadFailureClassified(c *core.Ctx) {
 								if f.Name() == "wrapIfContextError" && len(call.Args) == 1 && astx.Mentions(info, call.Args[0], r.err) {
 									classified = true
 								}
-								if f.Name() == "Code" {
-									if sel, ok := call.Fun.(*ast.SelectorExpr); ok && astx.ObjOf(info, sel.X) == r.err {
-										classified = true
-									}
-								}
+								// a comparison of the failure's Code with CodeCanceled / CodeDeadlineExceeded does not
+								// count: the decoder hands a raw context error from net/http on as the cause of an
+								// error coded unknown, so only a look at the cause classifies it
 							}
 						}
 						return true
